@@ -126,6 +126,35 @@ def _radicand_lemma(G, prem, c, trig, gram, inp, i, tag="", cell=0):
     return prem
 
 
+def _replay_volume(name, vals):
+    """float replay through the public Trajectory API: unitcell_volumes / unitcell_vectors against the closed forms"""
+    v = _angles_from_cos(vals)
+    script = f'''
+import numpy as np, sys, math
+import mdtraj as md
+a, b, c, al, be, ga = {v["a"]!r}, {v["b"]!r}, {v["c"]!r}, {v["alpha"]!r}, {v["beta"]!r}, {v["gamma"]!r}
+t = md.Trajectory(np.zeros((2, 1, 3), dtype=np.float32), None)
+t.unitcell_lengths = np.array([[a, b, c], [c, a, b]]); t.unitcell_angles = np.array([[al, be, ga], [ga, al, be]])
+cos = lambda d: math.cos(math.radians(d))
+def vol(a, b, c, al, be, ga):
+    return a * b * c * math.sqrt(max(1 - cos(al) ** 2 - cos(be) ** 2 - cos(ga) ** 2 + 2 * cos(al) * cos(be) * cos(ga), 0.0))
+want = [vol(a, b, c, al, be, ga), vol(c, a, b, ga, al, be)]
+got = t.unitcell_volumes
+V = t.unitcell_vectors
+err = max(abs(got[i] - want[i]) / max(want[i], 1e-9) for i in range(2))
+for f, L in enumerate(([a, b, c], [c, a, b])):
+    for k in range(3):
+        err = max(err, abs(np.linalg.norm(V[f, k]) - L[k]) / L[k])
+print("goal {name}: volumes", list(got), "closed form", want, "max relative deviation", err)
+sys.exit(1 if (not np.all(np.isfinite(got))) or err > 1e-3 else 0)
+'''
+    import subprocess, sys as _s, tempfile
+    with tempfile.NamedTemporaryFile("w", suffix=".py", delete=False) as fh:
+        fh.write(script)
+    r = subprocess.run([_s.executable, fh.name], capture_output=True, text=True)
+    return r.returncode == 1, script, name.split("[")[0]
+
+
 # ------------------------------------------------------------------ obligations
 
 def forward():
@@ -202,7 +231,7 @@ def volume():
             for k in range(3):
                 row = vecs[f, k]
                 G.add(f"vectors_row{k}_is_length{k}[{i}.f{f}]", prem, S.close(_dot(row, row), cl[k] * cl[k], TOL), inp)
-    r = G.run(_replay_forward)
+    r = G.run(_replay_volume)
     r["paths"] = len(paths)
     return r
 
